@@ -10,7 +10,7 @@ import (
 func init() {
 	register(&Rule{
 		ID:    "C16.ctor",
-		Props: []string{"C16", "C10", "C04", "C07", "C20"},
+		Props: []string{"C16", "C10", "C04", "C07", "C20", "C12"},
 		Doc:   "the composite constructors (NewPolygon, NewMultiPoint, NewMultiLineString, NewMultiPolygon, NewGeometryCollection) interpreted on modelled member lists of length 0..2 with every combination of member coordinate types: the stored ctype is the AND of all members' types (XY for no members), every stored member is ForceCoordinatesType(member_i, thatType) in order, and the stored list is a fresh slice (not the caller's backing array)",
 		Floor: 5,
 		Run:   runC16Ctor,
